@@ -33,7 +33,7 @@ def expected_ops(design):
             if not h:
                 continue
             for path in [h["path"]] + (h.get("more_paths") or []):
-                out.append((h["verb"], (s.get("path") or "") + path, s, m))
+                out.append((h["verb"], (design.get("path") or "") + (s.get("path") or "") + path, s, m))
     return out
 
 
